@@ -174,6 +174,14 @@ async def _run_script(ctx, inv, ev, script):
             ex = EXC[st[1]](f'{inv.id}')
             ctx.exc_objects[inv.id] = ex
             return ex
+        elif op == 'inner_timeout':
+            # the handler's own inner timeout scope expires (well inside the event timeout)
+            try:
+                async with asyncio.timeout(_val(ctx, st[1])):
+                    await asyncio.sleep(50)
+            except TimeoutError as ex:
+                ctx.exc_objects[inv.id] = ex
+                raise
         elif op == 'read_bus':
             _read_bus(ctx, inv, ev)
         elif op == 'recur':
@@ -190,6 +198,14 @@ async def _run_script(ctx, inv, ev, script):
             nn = _val(ctx, nvar)
             for i in range(nn):
                 inv.dispatch(ctx.buses[bus], _mk_event(ctx, cls, f'{prefix}{i}'))
+        elif op == 'burst_swallow':
+            _, bus, cls, nvar, prefix = st
+            nn = _val(ctx, nvar)
+            for i in range(nn):
+                try:
+                    inv.dispatch(ctx.buses[bus], _mk_event(ctx, cls, f'{prefix}{i}'))
+                except Exception:
+                    pass
         # ---- main / actor only
         elif op == 'root':
             _, bus, cls, label = st[:4]
